@@ -117,7 +117,15 @@ def run(ctx, R, tier):
     ok = False
     if isinstance(keyx, ast.Name):
         defs = [d for n in scfg.nodes_for(st_store[0][0]) for d in srd.reaching(n, keyx.id)]
-        ok = bool(defs) and all(d.kind == "assign" and d.value is not None and any(isinstance(x, ast.Call) and dotted(x.func) == "uuid.uuid4" for x in ast.walk(d.value)) for d in defs)
+        def only_uuid4(v):
+            """built from uuid.uuid4() and nothing that comes from the request / the context (str(), .hex and the like may wrap it)"""
+            if not any(isinstance(x, ast.Call) and dotted(x.func) == "uuid.uuid4" for x in ast.walk(v)):
+                return False
+            for x in ast.walk(v):
+                if isinstance(x, ast.Name) and x.id not in ("uuid", "str") and isinstance(x.ctx, ast.Load):
+                    return False
+            return True
+        ok = bool(defs) and all(d.kind == "assign" and d.value is not None and only_uuid4(d.value) for d in defs)
     R.check(ok, "C10-R3", "_streamResponse|fresh-id", "the stream id is derived from uuid.uuid4() in this activation", sr.loc(st_store[0][0]),
             "stream ids are not fresh random ids: two streams could share an id / ids could be guessed")
 
